@@ -108,6 +108,8 @@ func (c *SpecCtx) resolveType(s string) types.Type {
 		return types.Universe.Lookup("error").Type()
 	case "ref":
 		return types.Typ[types.UnsafePointer]
+	case "struct{}":
+		return types.NewStruct(nil, nil)
 	}
 	if o := types.Universe.Lookup(s); o != nil {
 		if tn, ok := o.(*types.TypeName); ok {
